@@ -241,7 +241,10 @@ fn parse_operation(pair: pest::iterators::Pair<Rule>) -> Result<StringOp, String
             })
         }
         Rule::shorthand_index => {
-            let idx = pair.as_str().parse().unwrap();
+            let idx_str = pair.as_str();
+            let idx = idx_str
+                .parse()
+                .map_err(|_| format!("Invalid index: {idx_str}"))?;
             Ok(StringOp::Split {
                 sep: SPACE_SEP.to_string(),
                 range: RangeSpec::Index(idx),
